@@ -128,5 +128,13 @@ CHECKS += [
         "note": "trusted: the interposer in checks/c19.py (audit hook + os.stat wrappers; self-tested), os.path.realpath; symlinks inside the root are out of scope",
     },
 ]
+CHECKS += [
+    {
+        "id": "C20", "engine": "Hypothesis (stateful histories) + reference directory model on a virtual clock", "level": "exploration",
+        "technique": "model-based (stateful) property testing: histories of register / update / delete / expire / lookup steps on a virtual clock against a reference directory model that applies a write only when it was answered 2.xx",
+        "text": "Generated histories run against a real StandaloneResourceDirectory; after every step endpoint lookup (also filtered), resource lookup and the registration resources are compared with the model's unexpired entries and their latest successful writes, locations are checked for stability and uniqueness, and expiry is driven on the virtual clock around lt+15 s. Sampled histories.",
+        "note": "trusted: reference model and link-format parser (vlib/linkfmt.py), VirtualClockLoop; simple registration and proxying are not exercised",
+    },
+]
 claimed = {c["id"] for c in CHECKS}
 NOT_APPLICABLE = [{"property_id": i, "reason": "check not built yet in this session (planned, see DESIGN.md section 3); no claim is made"} for i in ALL if i not in claimed]
